@@ -58,6 +58,10 @@ Runtime == <<
   [q |-> "select name from . where modified > '2017-13-45'", why |-> "bad-date"],
   [q |-> "select name from . where modified = '2017-02-30'", why |-> "bad-date"],
   [q |-> "select name from . where modified = '2017-05-01 25:00'", why |-> "bad-date"],
+  [q |-> "select name from . where modified gt '+x'", why |-> "bad-date"],
+  [q |-> "select name from . where modified = '-'", why |-> "bad-date"],
+  [q |-> "select name from . where modified < '+1.5'", why |-> "bad-date"],
+  [q |-> "select name from . where modified >= -x", why |-> "bad-date"],
   [q |-> "select name from . where is_dir = maybe", why |-> "bad-boolean"],
   [q |-> "select name from . where is_file != 2", why |-> "bad-boolean"],
   [q |-> "select format_size(size, '%.2 q') from .", why |-> "bad-function-argument"],
